@@ -104,6 +104,13 @@ dropping_exit_flush = dict(
     bounded=dict(bound='K = 1 .. 60 (thorough: 200) statements in steps, one exiting thread, one flushing thread; one OS schedule per case (threads sequenced by join / flags)', form='b'),
     dropped=[], trusted=['g++ / libstdc++ / fmt execute the real frontend and backend'], min_obligations=1, timeout=600)
 UNITS += [dropping_exit_flush]
+sink_registry = dict(
+    name='SM.registry_history', primary='C17', props={'C17'}, kind='L', funcs=[], enforce=None,
+    desc='the real SinkManager through every history of create / release / clean-up actions over four names, every name looked up after every action: a lookup finds exactly the live sink of that name, a gone sink is not found, creation is idempotent (the sorted-registry invariant that _find_sink / _insert_sink / cleanup_unused_sinks share - seed C17-Q4 broke it with swap-and-pop)',
+    native=dict(cpp='sink_registry.cpp', file='include/quill/core/SinkManager.h', function='SinkManager::{create_or_get_sink,get_sink,_find_sink,_insert_sink,cleanup_unused_sinks}', defs_quick=['LEN=5'], defs_thorough=['LEN=7']),
+    bounded=dict(bound='every history of <= 5 (thorough: 7) actions over 9 action kinds (4 names)', form='b'),
+    dropped=[], trusted=['g++ / libstdc++ execute the real SinkManager on one thread (the lock: units SP.lock / SP.unlock)'], min_obligations=1, timeout=900)
+UNITS += [sink_registry]
 exception_history = dict(
     name='BW.exception_history', primary='C10', props={'C10'}, kind='L', funcs=[], enforce=None,
     desc='formatting failures (user formatter throwing std::exception or an int, DeferredFormatCodec) and throwing sinks through the real pipeline with two sinks on one logger, for every history of bounded length: the other statements reach both sinks once and in order, a failing one is missing at most from the throwing sink and those after it or carries the explanatory text, every failure is reported once, the backend keeps running',
